@@ -102,8 +102,11 @@ or completes, and when it completes the dimension equalities it recorded hold:
   dimensions and vector lengths;
 * LDA: `n = n_lda * rows * cols`, `cols = stream_len[0]`;
 * mixture weights: `n_feat`, `n_comp` equal to the codebook dimensions, `n = n_sen * n_feat * n_comp`;
-* sendump: one row per density, at least one column per senone, and all
-  `n_feat * n_density` row pointers (each standing for `step` bytes) end inside the file.
+* sendump: one row per density, at least one column per senone, `n_bits` is 8 or 4, the cluster codebook has
+  0 or 16 bytes and lies in the file right before the first row, and the reader ends exactly
+  `n_feat * n_density` rows of `step = sdStep bits cols` bytes behind the first row, inside the file
+  (`step = cols` for 8 bits, `(cols + 1) / 2` for 4 bits — the value the C loop computes; see
+  `C17_sendump_rows_inside` for the single row pointers).
 No plan indexes an allocated array at or beyond its element count (`idx` unreachable: the header
 table of the second header pass, the row tables of `ckd_alloc_2d_ptr/_3d_ptr`, `t->tp`, the
 Gaussian vectors in `buf`). -/
@@ -116,7 +119,8 @@ theorem C17_plan_decides (f : File) :
     (∀ sl, (∃ site, ldaPlan f sl = .reject site) ∨ ∃ o, ldaPlan f sl = .ok o ∧
         o.n = o.nLda * o.rows * o.cols ∧ o.cols = sl ∧ 0 < o.n) ∧
     (∀ gf gd ms, (∃ site, sendumpPlan f gf gd ms = .reject site) ∨ ∃ o, sendumpPlan f gf gd ms = .ok o ∧
-        o.rows = gd ∧ ms ≤ o.cols ∧ o.endPtr ≤ f.size ∧ ∃ step, o.endPtr = o.dataOff + gf * gd * step) ∧
+        o.rows = gd ∧ ms ≤ o.cols ∧ o.endPtr ≤ f.size ∧ (o.bits = 8 ∨ o.bits = 4) ∧ (o.clust = 0 ∨ o.clust = 16) ∧
+        o.clust ≤ o.dataOff ∧ o.endPtr = o.dataOff + gf * gd * sdStep o.bits o.cols) ∧
     (∀ gf gd, (∃ site, mixwPlan f gf gd = .reject site) ∨ ∃ o, mixwPlan f gf gd = .ok o ∧
         0 < o.nSen ∧ o.nFeat = gf ∧ o.nComp = gd ∧ o.n = o.nSen * o.nFeat * o.nComp) ∧
     (∀ (p : Plan), p.Admissible → ∀ i n, p.run f ≠ .idx i n) :=
@@ -125,6 +129,30 @@ theorem C17_plan_decides (f : File) :
    fun gf gd ms => Sat.decides (sendumpPlan_sat f gf gd ms),
    fun gf gd => Sat.decides (mixwPlan_sat f gf gd),
    fun p hp i n => Sat.not_idx (Plan.run_sat f p hp) i n⟩
+
+/-- **C17, every row pointer of an accepted sendump is inside the file.**  `(*out_mixw)[n][i]` for `n < n_feat`,
+`i < n_density` is the file offset `rowOff n i = dataOff + (n * n_density + i) * step`, and the `step` bytes
+(= `cols` weights, or `cols` 4-bit weights packed in `(cols + 1) / 2` bytes) it stands for end at or before the
+end of the file; the rows do not overlap and follow the cluster codebook. -/
+theorem C17_sendump_rows_inside (f : File) (gf gd ms : Nat) (o : SdOut) (h : sendumpPlan f gf gd ms = .ok o) :
+    ∀ n i, n < gf → i < gd →
+      o.clust ≤ o.rowOff n i ∧ o.rowOff n i + sdStep o.bits o.cols ≤ f.size ∧
+      (i + 1 < gd → o.rowOff n (i + 1) = o.rowOff n i + sdStep o.bits o.cols) ∧
+      (n + 1 < gf → o.rowOff (n + 1) 0 = o.rowOff n (gd - 1) + sdStep o.bits o.cols) := by
+  intro n i hn hi
+  obtain ⟨hr, _, he, _, _, hc, hp⟩ := Sat.of_ok (sendumpPlan_sat f gf gd ms) h
+  unfold SdOut.rowOff
+  rw [hr]
+  have h1 : n * gd + i + 1 ≤ gf * gd := by
+    have : (n + 1) * gd ≤ gf * gd := Nat.mul_le_mul_right gd hn
+    rw [Nat.succ_mul] at this; omega
+  have h2 := Nat.mul_le_mul_right (sdStep o.bits o.cols) h1
+  refine ⟨by omega, ?_, ?_, ?_⟩
+  · rw [Nat.succ_mul] at h2; omega
+  · intro _; rw [← Nat.add_assoc (n * gd) i 1, Nat.succ_mul]; omega
+  · intro _
+    have : (n + 1) * gd + 0 = (n * gd + (gd - 1)) + 1 := by rw [Nat.succ_mul]; omega
+    rw [this, Nat.succ_mul]; omega
 
 /-- **C17, the header table.**  `s3file_parse_header` on any file, from any reader position inside
 it: nothing outside the file is read, the second pass never stores a header beyond the `nhdr`
@@ -269,8 +297,12 @@ allocated) except what it has handed to its caller, and `feat->lda` is never lef
 success exactly the result objects are live.  (The ledgers are transcribed from the C clean-up
 code at the granularity of the `ckd_*` entry points and *tied*: the harness intercepts those entry
 points (`-Wl,--wrap`), and for every case of stage A the recorded allocation trace, abstracted to
-`file:left-hand side` names, must equal the ledger of the stage the model reaches — order of
-releases included.) -/
+`file:left-hand side` names, must equal the ledger of the stage the model reaches — event by event, the order
+of the releases included (`judge_ledger` in tools/props/c17.py compares the two lists for equality).  Stages
+reached by generated cases are listed in the evidence (`ledger_traces_compared_by_stage`); they include the LDA
+stages with a previous matrix in place (`lda2` cases) and the topology stage of the transition matrices.  The
+stages `ArrStage.data`, `TmatStage.row`, `ParamStage.data` are behind a length pre-check of the repaired code
+and are not reached by any file: `C17_short_read_stages_dead` in Props/C17Fuel.lean.) -/
 theorem C17_reject_leaves_clean :
     (∀ s, s ≠ ArrStage.ok → clean (get1d false s) [] = true ∧ clean (get2d false s) [] = true ∧
         clean (get3d false s) [] = true) ∧
@@ -280,7 +312,7 @@ theorem C17_reject_leaves_clean :
     (∀ s, s ≠ GauStage.ok → clean (gauden s) [] = true) ∧
     clean (gauden .ok) [0, 10, 11, 12, 21, 22, 30] = true ∧
     (∀ old s, s ≠ LdaStage.array .ok → (lda false old s).2 = false ∧
-      clean (lda false old s).1 (match s with | .ok => [0, 1] | .dims => [0, 1] | .header => if old then [9] else [] | _ => []) = true) ∧
+      clean (lda false old s).1 (match s with | .ok => [0, 1] | .dims => [0, 1] | .header => if old then [8, 9] else [] | _ => []) = true) ∧
     (∀ swap s, s ≠ MdefStage.ok → clean (mdef swap s) [] = true) ∧ (∀ swap, clean (mdef swap .ok) (mdefKeep swap) = true) ∧
     (∀ s, s ≠ PtmStage.okSd → s ≠ PtmStage.okMx → clean (ptm s) [] = true) ∧
     clean (ptm .okSd) ptmKeep = true ∧ clean (ptm .okMx) ptmKeep = true := by
